@@ -102,7 +102,7 @@ static void rank_main (int rank, int size, void *varg)
   sc_MPI_Comm comm, ocomm, intra = sc_MPI_COMM_NULL, inter = sc_MPI_COMM_NULL;
   int ir = -1, is = -1, er = -1, es = -1, w[2], mpiret, node;
   char *mine = SC_ALLOC (char, (size_t) cnt * ts + 1);
-  char *o = (char *) malloc (2 * (2 * nA + nB + 2 * nA) + 384), *q = o;
+  char *o = (char *) malloc (2 * (2 * nA + 2 * nB + 2 * nA) + 400), *q = o;
 
   mpiret = sc_MPI_Comm_dup (sc_MPI_COMM_WORLD, &comm); SC_CHECK_MPI (mpiret);
   if (a->ppn_attach >= 0) sc_mpi_comm_attach_node_comms (comm, a->ppn_attach);
@@ -149,8 +149,15 @@ static void rank_main (int rank, int size, void *varg)
     sc_shmem_write_end (C, comm);
     sw[round] = (char *) malloc (nA + 1); memcpy (sw[round], C, nA);
   }
+  /* a second prefix into the SAME array, which is not fresh any more: the node's writer first fills all of it (leading
+     block included) with 0x5a through the write protocol */
+  simmpi_trace_note ("pr2");
+  { int w2 = sc_shmem_write_start (B, comm); if (w2) memset (B, 0x5a, nB); sc_shmem_write_end (B, comm); }
+  sc_shmem_prefix (mine, B, cnt, mpitype (a->dtype), sc_MPI_SUM, comm);
+  char *spre2 = (char *) malloc (nB + 1); memcpy (spre2, B, nB);
   q += sprintf (q, "w=%d%d type=%d ag=", w[0], w[1], (int) sc_shmem_get_type (comm));
   q = hexdup (sag, nA, q); q += sprintf (q, " pre="); q = hexdup (spre, nB, q);
+  q += sprintf (q, " pre2="); q = hexdup (spre2, nB, q); free (spre2);
   q += sprintf (q, " cp="); q = hexdup (scp, nA, q);
   q += sprintf (q, " w1="); q = hexdup (sw[0], nA, q); q += sprintf (q, " w2="); q = hexdup (sw[1], nA, q);
   free (sag); free (spre); free (scp); free (sw[0]); free (sw[1]);
